@@ -10,7 +10,7 @@ import time
 
 from .. import common
 from ..common import log
-from . import fmtparser
+from . import fmtparser, scanner
 
 PROP = "C18"
 
@@ -46,7 +46,31 @@ def main(a):
         json.dump({"property": PROP, "class": key, "literal": fmtparser.lit(s), "bytes": s["input"], "where": s.get("where"),
                    "native": s["native"], "paths_in_class": len(rs), "replay": "./check C18 --replay %s" % path}, open(path, "w"), indent=1)
         violations.append((key, path, "the literal parser aborts on %r (%d paths)" % (fmtparser.lit(s), len(rs))))
+    # ---- the argument scanner (impl/src/parsing.rs + FmtArgument): it must return on every token-tree sequence
+    sres = scanner.explore(tier, PROP)
+    inconclusive.extend(sres["inconclusive"])
+    srecs = sres["records"]
+    sbad = [r for r in srecs if r["kind"] in ("panic", "memerr", "unreachable", "hang")]
+    sgroups = {}
+    for r in sbad:
+        sgroups.setdefault("scanner-%s/%s" % (r["kind"], (r.get("detail") or "")[:50].replace(" ", "_")), []).append(r)
+    tts_of = lambda r: [tuple(r["input"][4 * i:4 * i + 4]) for i in range(r["n"])]
+    for key, rs in sorted(sgroups.items()):
+        confirmed = [r for r in rs if r.get("native") and (r["native"].get("abort") or r["native"].get("timeout"))]
+        text = kf.match(PROP, key)
+        if text is not None:
+            known_lines.append("KNOWN-FINDING: property=%s key=%s %s" % (PROP, key, text))
+            continue
+        if not confirmed:
+            inconclusive.append("%s reached by llsym on %d paths but the native build returns normally, e.g. `%s`" % (key, len(rs), scanner.render(tts_of(rs[0]))))
+            continue
+        x = min(confirmed, key=lambda r: (r["n"], r["input"]))
+        path = os.path.join(replay_dir, "%s.json" % key.replace("/", "_")[:60])
+        json.dump({"property": PROP, "component": "scanner", "class": key, "arguments": scanner.render(tts_of(x)), "token_trees": tts_of(x), "where": x.get("where"),
+                   "native": x["native"], "paths_in_class": len(rs), "replay": "./check C18 --replay %s" % path}, open(path, "w"), indent=1)
+        violations.append((key, path, "the argument scanner %s on `%s` (%d paths)" % ("does not terminate" if x["kind"] == "hang" else "aborts", scanner.render(tts_of(x)), len(rs))))
     wall = time.time() - t0
+    scov = scanner.coverage(sres, tier, PROP) if sres.get("build") else None
     cov = fmtparser.coverage_common(res, tier) if res.get("build") else {"states": 0, "transitions": 0, "traces_validated_against_impl": 0}
     rets = [r for r in recs if r["kind"] == "ret"]
     cov.update({
@@ -57,14 +81,24 @@ def main(a):
                                       "compiled with overflow-checks=on), alloc errors, llvm.trap; out-of-object loads/stores; `unreachable`",
         "known_findings_reported": known_lines, "inconclusive": inconclusive[:10],
         "components": {"format literal parser (impl/src/fmt/parsing.rs + Placeholder::parse_fmt_string)": "explored",
-                       "argument scanner (impl/src/parsing.rs)": "not covered by this check (see DESIGN.md, C16)",
+                       "argument scanner (impl/src/parsing.rs + FmtArgument)": "explored (coverage.scanner)",
                        "expanders' own index arithmetic, attribute parsers": "out of reach (syn values), not claimed"},
         "explanation": "states = symbolic paths (each ends in `ret` or in an abort, decided by satisfiability of its path condition); "
                        "transitions = solver queries; traces_validated = paths re-run natively",
         "exhaustive": False,
     })
+    if scov:
+        cov["literal_parser"] = {"states": cov["states"], "transitions": cov["transitions"], "traces_validated_against_impl": cov["traces_validated_against_impl"]}
+        cov["scanner"] = scov
+        cov["scanner"]["paths_returning"] = len([r for r in srecs if r["kind"] == "ret"])
+        cov["scanner"]["paths_aborting_or_hanging"] = len(sbad)
+        for k in ("states", "transitions", "traces_validated_against_impl"):
+            cov[k] += scov[k]
     common.write_evidence(PROP, tier, "model_checking", cov, [
-        "claims the format-literal parser only: C18's other components are listed under coverage.components",
+        "claims the two components the property singles out - the format-literal parser and the argument scanner; C18's other components are listed "
+        "under coverage.components as out of reach",
+        "the scanner runs against index-based environment stubs for syn / proc_macro2 / quote (vf/llsym/rust/scan/shim_*), validated on every run against "
+        "the real crates on every token-tree sequence up to the validator bound (coverage.scanner.validator)",
         "llsym executes the IR faithfully (every returned path is re-run natively and must agree)",
         "bounded time is checked as a per-path budget of 40000*(len+2) IR instructions",
     ], wall, len(violations))
@@ -87,6 +121,21 @@ def replay(path):
     from ..llsym import build, native
     j = json.load(open(path))
     scratch = common.scratch_dir(PROP + "-replay")
+    if j.get("component") == "scanner":
+        import subprocess
+        b = build.build_scan_wrapper(scratch)
+        v = build.build_scan_validator(scratch, b["dir"])
+        try:
+            p = subprocess.run([v, "replay", j["arguments"]], capture_output=True, text=True, timeout=60)
+            print(p.stdout + p.stderr[-400:])
+            bad = p.returncode not in (0, 1, 2)      # 3 = panicked, negative = killed by a signal (1 = a C16 disagreement, not C18's business)
+        except subprocess.TimeoutExpired:
+            print("the scanner built against the real syn did not return within 60 s on `%s`" % j["arguments"])
+            bad = True
+        if bad:
+            print("VIOLATION property=%s replay=%s" % (PROP, path))
+            return common.EXIT_VIOLATION
+        return common.EXIT_OK
     b = build.build_fmt_wrapper(scratch)
     out = native.run_native(b["so"], [bytes(j["bytes"])])[0]
     print("literal %r -> native %s" % (j["literal"], out))
